@@ -221,7 +221,7 @@ func c13Run(c *Ctx) {
 		plit := "{" + strings.Join(plain, ", ") + "}"
 		var src string
 		probeOrder := false
-		switch r.Intn(14) {
+		switch r.Intn(15) {
 		case 0: // side effects of initialisers in source order
 			probeOrder = true
 			src = Lines(Fun("p", "t, v", " "+Print("t")+" "+Ret("v")+" "), Var("o", lit), Print("o"))
@@ -250,6 +250,8 @@ func c13Run(c *Ctx) {
 			src = Lines(Var("ka", "[0]"), "ka[0] = ka;", Var("kb", "[0, 1]"), "kb[0] = kb;", Var("kc", "[0]"), "kc[0] = [kc];", Var("o", "{p: ka, q: kb, r: 5, s: kc, t: ka}"), Print("o"), Print("o"), Print("[o, ka]"), Print("ka"), Print("o"))
 		case 12: // literals made of constants and bare names, several of them undefined
 			src = Lines(Var("def", "1"), Print(`"x"`), Var("o", "{"+perm[0]+": 1, "+perm[1]+": নেই_ক, m1: def, m2: নেই_খ, m3: \"s\", m4: নেই_গ, m5: নেই_ঘ}"), Print("o"))
+		case 13: // a failing assignment / read next to several equally similar names
+			src = Lines(Var("price_a", "1"), Var("price_b", "2"), Var("price_c", "3"), Var("pric", "4"), Var("prices", "5"), Print(`"x"`), []string{"price = 9;", Print("price"), "price_d = 1;", "prize = price_a;"}[r.Intn(4)], Print(`"AFTER"`))
 		default: // listing used as data
 			src = Lines(Var("o", plit), Var("acc", `""`), Var("ks", BI("keys", "o")), For(Var("i", "0"), "i < "+BI("len", "ks"), "i = i + 1", "{ acc = acc + ks[i] + \",\"; }"), Print("acc"))
 		}
